@@ -85,6 +85,7 @@ def main():
                     r = subprocess.run(["patch", "-p1", "-s", "-i", job[2]], cwd=d, capture_output=True, text=True)
                     if r.returncode != 0:
                         print(f"{prop} {name}: PATCH FAILED {r.stdout} {r.stderr}")
+                        print(f"{prop} seeded:{name}: PATCHFAIL (the patch no longer applies to the current tree - rebase it)", flush=True)
                         results.append((prop, name, "patchfail"))
                         continue
                 rc, wall, lines, so, se = run(prop, d, a.tier)
